@@ -191,6 +191,17 @@ def run(ctx) -> None:
             r.violation("C11.R5", rt.qual, f"branch '{need}'", "callback branch missing", rt.loc)
     # storing detections + combination
     stores = [n for n in walk_no_nested(ap.node) if isinstance(n, ast.Assign) and any(isinstance(t, ast.Subscript) and unparse(t.value) == "rule.detection.detections" for t in n.targets)]
+    # the same store written as detections.update({key: value for ...}) — (key, value) taken from the comprehension
+    bulk: list[tuple[ast.AST, ast.AST, ast.AST]] = []
+    for c in walk_no_nested(ap.node):
+        if isinstance(c, ast.Call) and call_name(c) == "rule.detection.detections.update" and c.args:
+            a0 = c.args[0]
+            if isinstance(a0, ast.DictComp):
+                bulk.append((c, a0.key, a0.value))
+            elif isinstance(a0, ast.Dict):
+                bulk.extend((c, k, v) for k, v in zip(a0.keys, a0.values) if k is not None)
+            else:
+                bulk.append((c, a0, a0))
     for st in stores:
         key = unparse(st.targets[0].slice).replace('"', "'")  # type: ignore[attr-defined]
         sl = f"{ap.module.relpath}:{st.lineno}"
@@ -198,6 +209,13 @@ def run(ctx) -> None:
             r.ok("C11.R5", ap.qual, f"detections[{key}]", sl)
         else:
             r.violation("C11.R5", ap.qual, unparse(st), "filter detections are not stored under prefix + '_' + name (the rewritten condition would not find them)", sl)
+    for c, k, v in bulk:
+        sl = f"{ap.module.relpath}:{c.lineno}"
+        kt = unparse(k).replace('"', "'")
+        if kt.startswith("prefix + '_' + "):
+            r.ok("C11.R5", ap.qual, f"detections.update({{{kt}: …}})", sl)
+        else:
+            r.violation("C11.R5", ap.qual, short(c, 120), "filter detections are not stored under prefix + '_' + name (the rewritten condition would not find them)", sl)
     combos = [n for n in walk_no_nested(ap.node) if isinstance(n, ast.Assign) and any(isinstance(t, ast.Subscript) and unparse(t.value) == "rule.detection.condition" for t in n.targets)]
     for st in combos:
         sl = f"{ap.module.relpath}:{st.lineno}"
@@ -206,7 +224,7 @@ def run(ctx) -> None:
             r.ok("C11.R5", ap.qual, f"condition[i] = {txt!r}", sl)
         else:
             r.violation("C11.R5", ap.qual, unparse(st), f"combined condition is {txt!r}; expected '(original) and (filter)' with both sides parenthesised (operator precedence would otherwise regroup the rule's own OR/AND)", sl)
-    if not combos or not stores:
+    if not combos or not (stores or bulk):
         raise AnalysisError(f"{ap.qual}: detection store / condition combination not found")
     loops = [n for n in walk_no_nested(ap.node) if isinstance(n, ast.For) and unparse(n.iter) == "enumerate(rule.detection.condition)"]
     if loops:
@@ -251,15 +269,51 @@ def run(ctx) -> None:
     else:
         r.ok("C11.R3", sh.qual, "references resolved by id or name through SigmaCollection([rule])[reference.reference]", sh.loc)
 
+    # the containment relation itself, tabulated on a stand-in dataclass with the class's own fields and compare flags
+    import dataclasses as _dc
+    import itertools
+    from ..tabulate import Interp, Raised
+    lc = prog.func("sigma.rule.logsource.SigmaLogSource.__contains__")
+    flds = prog.dataclass_fields("sigma.rule.logsource.SigmaLogSource")
+    spec = []
+    for name, ann in flds.items():
+        cmp_ = not (isinstance(ann.value, ast.Call) and any(k.arg == "compare" and isinstance(k.value, ast.Constant) and k.value.value is False for k in ann.value.keywords))
+        spec.append((name, object, _dc.field(default=None, compare=cmp_)))
+    LS = _dc.make_dataclass("SigmaLogSource", spec, frozen=True)
+    if not {"category", "product", "service"} <= {n for n, _, _ in spec}:
+        raise AnalysisError("SigmaLogSource lost one of category/product/service")
+    wrong = []
+    n_cases = 0
+    for sv in itertools.product((None, "a"), repeat=3):
+        for ov in itertools.product((None, "a", "b"), repeat=3):
+            for sdef, odef in ((None, None), ("note", None), (None, "note"), ("x", "y")):
+                kw_s = dict(zip(("category", "product", "service"), sv))
+                kw_o = dict(zip(("category", "product", "service"), ov))
+                if "definition" in {n for n, _, _ in spec}:
+                    kw_s["definition"], kw_o["definition"] = sdef, odef
+                me, other = LS(**kw_s), LS(**kw_o)
+                it = Interp({"self": me, "other": other, "SigmaTypeError": lambda *a, **k: "SigmaTypeError", "dataclasses": _dc})
+                try:
+                    got = bool(it.call(lc.node.body))
+                except Raised as e:
+                    got = f"<raises {e}>"
+                want = all(s_ is None or s_ == o_ for s_, o_ in zip(sv, ov))
+                n_cases += 1
+                if got != want:
+                    wrong.append(f"filter log source {kw_s} contains rule log source {kw_o}: {got} instead of {want}")
+    if wrong:
+        r.violation("C11.R3", lc.qual, f"containment table: {wrong[0]}", f"{len(wrong)} of {n_cases} tabulated cases deviate: a log source covers another iff each of category, product and service is unset or equal — nothing else (not the free-text definition, not custom attributes) may narrow a filter", lc.loc)
+    else:
+        r.ok("C11.R3", lc.qual, f"containment tabulated over {n_cases} cases (category/product/service unset/equal/different x definition notes): unset-or-equal on exactly these three", lc.loc)
+
     # ---------------------------------------------------------------- R4
     r.rule("C11.R4", "objects stored into a rule's detection map are fresh (deep copy or constructor result), never the filter's own detection objects")
-    for st in stores:
+    for st, v in [(st, st.value) for st in stores] + [(c, v) for c, _, v in bulk]:
         sl = f"{ap.module.relpath}:{st.lineno}"
-        v = st.value
         if isinstance(v, ast.Call) and (call_name(v) in ("copy.deepcopy", "deepcopy") or call_name(v).split(".")[-1] in ("SigmaDetection", "from_definition")):
-            r.ok("C11.R4", ap.qual, unparse(st), sl)
+            r.ok("C11.R4", ap.qual, short(st, 120), sl)
         else:
-            r.violation("C11.R4", ap.qual, unparse(st),
+            r.violation("C11.R4", ap.qual, short(st, 160),
                         "the filter's own SigmaDetection object is shared by every rule the filter applies to; pipelines transform detections in place, so the second rule receives detections already rewritten for the first (e.g. prefix applied twice)", sl)
 
     # ---------------------------------------------------------------- R6
